@@ -170,8 +170,9 @@ CLAIMS["C19"] = dict(
     text=("Deductive proof of two peer-binding decision points: the client's UDP listener reaches the time-stamp update and the read callback only after the source IP "
           "compared equal to the negotiated one and the source port equals the negotiated (or first-seen, with AnyPortEnable) port; a request arriving for a session "
           "that is bound to another interleaved connection is answered 400 with an error and leaves the session state unchanged; "
-          "Server.runInner hands a session to a connection only if the connection created it or has the author's IP and zone, whatever the request's method."),
-    note=TRUST + ABSTR + "The server's UDP dispatch (map keyed by a composite address; clientAddr.fill's embedded array is abstracted by the engine) is NOT decided; effects on statistics and timeouts over histories are not decided.",
+          "Server.runInner hands a session to a connection only if the connection created it or has the author's IP and zone, whatever the request's method."
+          + B + "the server's UDP dispatch key (clientAddr.fill) is equal for two source addresses exactly when net.IP.Equal and the ports agree, over 9216 pairs of 4-byte, IPv4-mapped, IPv4-compatible and IPv6 addresses."),
+    note=TRUST + ABSTR + "The server's UDP dispatch (map keyed by a composite address; clientAddr.fill's embedded array is abstracted by the engine) is decided only on the bounded grid (not proved); effects on statistics and timeouts over histories are not decided.",
     design="DESIGN.md section 4, C19",
 )
 CLAIMS["C20"] = dict(
